@@ -23,12 +23,16 @@ ran = {}
 rc, o = sh(meta["demo_cmd"]); ran["demo_with_change"] = dict(cmd=meta["demo_cmd"], rc=rc); print("demo with change rc", rc)
 ok = rc != 0
 cmd = " && ".join("(cd ./%s && go test -vet=off -count=1 -skip SeedDemo %s)" % (m or ".", " ".join(sorted(ps))) for m, ps in sorted(bymod.items()))
+if len(sys.argv) > 3:
+    cmd = sys.argv[3]
 rc, o = sh(cmd); ran["existing_tests_with_change"] = dict(cmd=cmd, rc=rc); print("existing tests with change rc", rc, o[-300:] if rc else "")
 ok = ok and rc == 0
-rc, _ = sh("git stash"); 
+pd = os.path.join(out, "patch.diff")
+rc, o = sh("git apply -R " + pd); print("reverse patch rc", rc, o[-200:] if rc else "")
+
 rc, o = sh(meta["demo_cmd"]); ran["demo_without_change"] = dict(cmd=meta["demo_cmd"], rc=rc); print("demo without change rc", rc, o[-300:] if rc else "")
 ok = ok and rc == 0
-sh("git stash pop")
+sh("git apply " + pd)
 print("CONFIRMED" if ok else "NOT CONFIRMED")
 if ok:
     d = os.path.join(ROOT, "seeded", pid, name)
